@@ -518,8 +518,14 @@ const MetadataEntryKey = "__swamp_meta__"
 
 // writeV2File writes entries to a new V3 .hyd file (swamp name in header area)
 func (m *Migrator) writeV2File(filePath string, entries []v2.Entry, swampName string) error {
+	_, statErr := os.Stat(filePath)
 	writer, err := v2.NewFileWriterWithName(filePath, v2.DefaultMaxBlockSize, swampName)
 	if err != nil {
+		// the writer creates the file before it writes the header: do not leave a partial
+		// .hyd behind, it would shadow the intact V1 folder
+		if os.IsNotExist(statErr) {
+			os.Remove(filePath)
+		}
 		return err
 	}
 
